@@ -178,6 +178,8 @@ func (d *Driver) handleCallbacks(
 			case <-ctx.Done():
 				return
 			default:
+				util.Yield("gen.callbacks.read")
+
 				rb, err := d.Channel.Read()
 				if err != nil {
 					c <- &callbackResult{
